@@ -591,6 +591,14 @@ func (g *Generator) intent(h int64) Intent {
 		if g.r.Chance(0.05) {
 			it.To = fmt.Sprintf("a%d", g.pickActor()) // contract tx to a plain account
 		}
+		if n := len(m.InnerList); n > 0 && g.r.Chance(0.15) {
+			// a contract created by a contract
+			it.To = fmt.Sprintf("i%d", g.r.Intn(n))
+			if g.c.AvoidKnown && it.Kind == "transfer" {
+				// listed finding: plain transfer to an inner-created contract bypasses the EVM
+				it.Kind = "call"
+			}
+		}
 	}
 	// generic invalidations
 	if g.r.Chance(g.c.PInvalid) {
